@@ -213,6 +213,11 @@ mut("M20", "server.go", "				if max := 1 * time.Second; tempDelay > max {\n					
 mut("M82", "server.go", "	for conn := range s.conns {\n		conn.Close()\n	}\n	s.locker.Unlock()\n\n	return err", "	if err != nil {\n		s.locker.Unlock()\n		return err\n	}\n	for conn := range s.conns {\n		conn.Close()\n	}\n	s.locker.Unlock()\n\n	return err", ["C20"], "first-close-closes-every-registered-connection", note="Server.Close leaves connections open when a listener fails to close")
 mut("M83", "server.go", "				time.Sleep(tempDelay)\n				continue\n			}\n			return err", "				time.Sleep(tempDelay)\n				if tempDelay >= time.Second {\n					return err\n				}\n				continue\n			}\n			return err", ["C20"], "temporary-accept-errors-never-end-serving", note="Serve gives up after the back-off reaches its cap")
 mut("M84", "conn.go", "	c.locker.Lock()\n	defer c.locker.Unlock()\n\n	c.closed = true\n", "	c.closed = true\n\n	c.locker.Lock()\n	defer c.locker.Unlock()\n", ["C20"], "own:Conn.closed", note="closed flag written before taking the connection lock")
+mut("M93", "conn.go", "			case DSNReturnFull, DSNReturnHeaders:\n				// This space is intentionally left blank\n			default:\n				c.writeResponse(501, EnhancedCode{5, 5, 4}, \"Unknown RET value\")\n				return\n			}", "			case DSNReturnFull, DSNReturnHeaders:\n				// This space is intentionally left blank\n			}", ["C11"], "ret", note="unknown RET value accepted")
+mut("M94", "conn.go", "			if _, ok := seen[val]; ok {\n				return errors.New(\"Malformed NOTIFY parameter value\")\n			}\n", "", ["C11"], "checkNotifySet/", note="duplicate NOTIFY keyword accepted")
+mut("M95", "conn.go", "	if _, ok := seen[DSNNotifyNever]; ok && len(seen) > 1 {", "	if _, ok := seen[DSNNotifyNever]; ok && len(seen) > 2 {", ["C11"], "never-stands-alone", note="NOTIFY=NEVER,x accepted")
+mut("M98", "conn.go", "			size, err := strconv.ParseUint(value, 10, 32)\n			if err != nil {\n				c.writeResponse(501, EnhancedCode{5, 5, 4}, \"Unable to parse SIZE as an integer\")", "			size, err := strconv.ParseUint(value, 0, 32)\n			if err != nil {\n				c.writeResponse(501, EnhancedCode{5, 5, 4}, \"Unable to parse SIZE as an integer\")", ["C11"], "size", note="SIZE parsed with base prefix detection (0x10 accepted)")
+mut("M99", "conn.go", "		if err == nil && !isPrintableASCII(aAddr) {\n			err = errors.New(\"illegal address:\" + aAddr)\n		}\n", "", ["C11"], "typed-address", note="rfc822 ORCPT with non-printable decoded octets accepted")
 # ---------------------------------------------------------------- client.go
 mut("M30", "client.go", "	if d.closed {\n		return fmt.Errorf(\"smtp: data writer closed twice\")\n	}\n	d.closed = true\n", "	if d.closed {\n		return fmt.Errorf(\"smtp: data writer closed twice\")\n	}\n", ["C16"], "always-closed-afterwards", note="dataCloser never marked closed (also regression of fix 755bba6)")
 mut("P13r", "client.go", "		// The transaction is over, its recipients must not be reported\n		// again for the next one on this connection.\n		d.c.rcpts = nil\n", "", ["C18"], "recipients-forgotten", note="regression of fix beb567b (LMTP recipients carried over)")
